@@ -27,6 +27,9 @@ type Step struct {
 	Shared   bool           `json:"shared,omitempty"` // with Conflict: the parked transaction only reads the table (shared locks), so the statement's scan succeeds and its lock upgrade is refused
 	End      string         `json:"end"`              // commit | abort
 	Repeat   int            `json:"repeat,omitempty"`
+	// Hold: the transaction is not ended after this statement; the next step runs in the same transaction (so that it
+	// meets rows the transaction itself deleted, updated or inserted). Pins are compared after every statement all the same.
+	Hold bool `json:"hold,omitempty"`
 }
 
 type Case struct {
@@ -131,6 +134,7 @@ func run(c *Case, st *stats) *vf.Failure {
 			}
 		}
 	}
+	var held *dbh.Txn // transaction kept open by the previous step
 	for si := range c.Steps {
 		sp := &c.Steps[si]
 		reps := sp.Repeat
@@ -161,7 +165,13 @@ func run(c *Case, st *stats) *vf.Failure {
 				}
 			}
 			before := db.PinnedPages()
-			t := db.Begin()
+			t := held
+			held = nil
+			if t == nil || t.Done {
+				t = db.Begin()
+			} else {
+				st.classes["statement-inside-a-running-transaction"] = true
+			}
 			var shape []string
 			var err error
 			desc := ""
@@ -194,6 +204,9 @@ func run(c *Case, st *stats) *vf.Failure {
 			if t.Done {
 				outcome = "aborted-by-engine"
 				st.classes["aborted-statement"] = true
+			} else if sp.Hold && rep == reps-1 && si+1 < len(c.Steps) && parked == nil {
+				held = t
+				outcome = "transaction-kept-open"
 			} else if sp.End == "abort" {
 				t.Abort()
 				outcome = "explicit-abort"
@@ -322,12 +335,24 @@ func genCase(t *rapid.T) *Case {
 			sp.Conflict = true
 			sp.Shared = rapid.Bool().Draw(t, "cshared")
 		}
+		if sp.S != nil && !sp.Conflict && (sp.S.Kind == "delete" || sp.S.Kind == "update" || sp.S.Kind == "insert") && sp.Repeat <= 1 && rapid.IntRange(0, 2).Draw(t, "hold") == 0 {
+			// the same transaction goes on reading the table it has just changed (own deletes / updates / inserts)
+			sp.Hold = true
+			c.Steps = append(c.Steps, sp)
+			nf := rapid.IntRange(1, 2).Draw(t, "nfollow")
+			for f := 0; f < nf; f++ {
+				d2 := defOf(c, sp.S.Table)
+				q := sqlgen.Select(t, d2, prof)
+				c.Steps = append(c.Steps, Step{S: &q, End: sp.End, Hold: f+1 < nf})
+			}
+			continue
+		}
 		c.Steps = append(c.Steps, sp)
 	}
 	return c
 }
 
-const rule = "Case = (two or three tables with skip-list / no indexes, 0-250 rows each, pool from the minimum (3 frames per skip-list index + 8) to +60 frames; 1-10 steps: SELECT (sequential / index range scans, selection, projection), INSERT (also 30x repeated with rows that allocate new heap pages), UPDATE (in place and relocating), DELETE, join queries (hash / index / nested loop join as the optimizer chooses under the tables' statistics states none / computed after 2 rows / fresh, 5x repeated), statistics updates, statements that fail (unknown column/table, type error), UPDATE / DELETE statements aborted by a lock conflict with a parked transaction that wrote the table (the scan is refused) or only read it (the scan succeeds, the lock upgrade is refused); each ended by commit or abort). Oracle: with no other transaction active, every page with a positive pin count in BufferPoolManager.GetPages() after the statement and its commit/abort already had a positive pin count before it (pin-count growth on pages that were pinned before is recorded as a class, not a violation). Non-trivial = a statement that was planned and executed (plan shape recorded as class)."
+const rule = "Case = (two or three tables with skip-list / no indexes, 0-250 rows each, pool from the minimum (3 frames per skip-list index + 8) to +60 frames; 1-10 steps: SELECT (sequential / index range scans, selection, projection), INSERT (also 30x repeated with rows that allocate new heap pages), UPDATE (in place and relocating), DELETE, join queries (hash / index / nested loop join as the optimizer chooses under the tables' statistics states none / computed after 2 rows / fresh, 5x repeated), statistics updates, statements that fail (unknown column/table, type error), UPDATE / DELETE statements aborted by a lock conflict with a parked transaction that wrote the table (the scan is refused) or only read it (the scan succeeds, the lock upgrade is refused); each ended by commit or abort, or followed inside the same transaction by SELECTs of the table it has just changed). Oracle: with no other transaction active, every page with a positive pin count in BufferPoolManager.GetPages() after the statement and its commit/abort already had a positive pin count before it (pin-count growth on pages that were pinned before is recorded as a class, not a violation). Non-trivial = a statement that was planned and executed (plan shape recorded as class)."
 
 var assumptions = []string{
 	"CREATE TABLE is outside the statement list (each skip-list index keeps 3 pages pinned for its lifetime by design)",
